@@ -1,20 +1,24 @@
 ---------------------------- MODULE Trace_MidicatDrv ----------------------------
 (* C19 bound to the real process-backed ports: each trace line holds messages the REAL out port (drivers/midicatdrv/out.go)
    wrote as text lines into the stand-in helper -- the lines verbatim -- and what the REAL in port (in.go, through
-   midicat.ReadAndConvert) handed to its listener after the helper pair echoed them.  TLC checks every line against the
-   specification's encoder Line(0, bytes) and the received records against the messages sent (lossless, one per line). *)
+   midicat.ReadAndConvert) handed to its listener after the helper pair echoed them.  TLC checks that every line is a line of the
+   specification's grammar denoting (0, bytes) and the received records against the messages sent (lossless, one per line). *)
 EXTENDS MidicatLine, TLC, Json, IOUtils
 VARIABLES l, bad
 Trace == ndJsonDeserialize(IOEnv.VERIF_TRACE)
 
 Judge(e) ==
-  LET linesOk == /\ Len(e.lines) = Len(e.msgs)
-                 /\ \A i \in 1..Len(e.msgs) : e.lines[i] = Line(0, e.msgs[i])
+  \* each line the out port wrote is one LF-terminated line of the grammar denoting (0, message); the case of the hex digits
+  \* is left free (C.8): what matters is that it is lossless and self-framing
+  LET LineOk(ln, m) == /\ Len(ln) >= 2 /\ ln[Len(ln)] = LF /\ \A i \in 1..(Len(ln) - 1) : ln[i] # LF
+                       /\ Denote(SubSeq(ln, 1, Len(ln) - 1), TRUE) = Rec(0, m)
+      linesOk == /\ Len(e.lines) = Len(e.msgs)
+                 /\ \A i \in 1..Len(e.msgs) : LineOk(e.lines[i], e.msgs[i])
       backOk  == /\ e.got = e.msgs
                  /\ \A i \in 1..Len(e.gotts) : e.gotts[i] = 0
   IN [ok |-> e.pan = "" /\ linesOk /\ backOk,
       info |-> [id |-> e.id, linesOk |-> linesOk, backOk |-> backOk, pan |-> e.pan,
-                firstBadLine |-> IF Len(e.lines) = Len(e.msgs) THEN {i \in 1..Len(e.msgs) : e.lines[i] # Line(0, e.msgs[i])} ELSE {0}]]
+                firstBadLine |-> IF Len(e.lines) = Len(e.msgs) THEN {i \in 1..Len(e.msgs) : ~LineOk(e.lines[i], e.msgs[i])} ELSE {0}]]
 
 Init == l = 1 /\ bad = <<>>
 Next == \/ /\ l <= Len(Trace)
